@@ -220,11 +220,11 @@ def bzr_rename_one(s, p, q):
         return "BzrMoveFailedError"
     cur = s.inv[fid][0]
     if under(cur, q):
-        return "TypeError" if (fe and cur == p) else "Unmodelled"
+        return "BzrMoveFailedError" if (fe and cur == p) else "Unmodelled"
     if not only_inv:
         e = os_rename_err(s.disk, p, q)
         if e:
-            return "TypeError"
+            return "BzrMoveFailedError"
         s.disk = d_rename(s.disk, p, q)
     inv_rename(s, fid, q)
     return None
@@ -257,11 +257,11 @@ def bzr_move(s, p, d):
         else:
             return "RenameFailedFilesExist"
     if under(p, q):
-        return "TypeError" if fe else "Unmodelled"
+        return "BzrMoveFailedError" if fe else "Unmodelled"
     if move_file:
         e = os_rename_err(s.disk, p, q)
         if e:
-            return "TypeError"
+            return "BzrMoveFailedError"
         s.disk = d_rename(s.disk, p, q)
     inv_rename(s, fid, q)
     return None
@@ -543,12 +543,8 @@ def git_rename_one(s, p, q):
         if kind != "d" and p not in s.index:
             return "BzrMoveFailedError"
         e = os_rename_err(s.disk, p, q)
-        if e == "EINVAL":
-            return "OSError"
-        if e == "FileNotFoundError":
-            return "BzrMoveFailedError"
         if e:
-            return e
+            return "BzrMoveFailedError"
         s.disk = d_rename(s.disk, p, q)
     if kind != "d":
         s.index.discard(p)
@@ -636,10 +632,6 @@ def g_pairs(s, modified_only):
 
 
 def git_commit(s):
-    if g_notadir(s):
-        return "NotADirectoryError"
-    if g_pairs(s, True):
-        return "Unmodelled"      # candidate finding C09-git-commit-copy: commit unversions the copied-from file
     v = git_snapshot(s)
     new = {p: e for p, e in v.items() if e[0] == "f"}
     old = s.basis
@@ -656,8 +648,8 @@ def g_subtree(t, p):
 def git_revert(s):
     v = git_snapshot(s)
     b = git_basis_tree(s)
-    if any(dl(s.disk, p[:i]) is not None and dl(s.disk, p[:i])[0] == "f" for p in s.index for i in range(1, len(p))):
-        return "NotADirectoryError"
+    if g_notadir(s):
+        return "Unmodelled"      # finding C09-git-revert-notadir: revert raises TransformRenameFailed
     # guard: nothing dulwich's rename/copy detection could pair up
     rows = git_status(s)
     if g_pairs(s, False):
@@ -702,11 +694,8 @@ def git_observe(s):
         else:
             rows.append([S(p), "directory", b"", False])
     rows.sort()
-    if any(dl(s.disk, p[:i]) is not None and dl(s.disk, p[:i])[0] == "f" for p in s.index for i in range(1, len(p))):
-        ch = "NotADirectoryError"
-    else:
-        ch = git_status(s)
-        ch.sort(key=lambda r: ((r[0] or ""), (r[1] or ""), repr(r)))
+    ch = git_status(s)
+    ch.sort(key=lambda r: ((r[0] or ""), (r[1] or ""), repr(r)))
     vs = {r[0] for r in rows}
     ex = []
     for p, n in s.disk.items():
